@@ -20,12 +20,14 @@ type Y[V any] struct{ yield func(V) bool }
 type stopped struct{}
 
 type gen[V any] struct {
-	body    func(*Y[V])
-	next    func() (V, bool)
-	stop    func()
-	started bool
-	done    bool
-	cur     V
+	body     func(*Y[V])
+	next     func() (V, bool)
+	stop     func()
+	started  bool
+	done     bool
+	cur      V
+	panicked bool // the body panicked; MoveNext re-raises the value in the resuming call
+	panicVal any
 }
 
 // New creates a generator; nothing of body runs before the first MoveNext.
@@ -39,27 +41,35 @@ func (g *gen[V]) MoveNext() bool {
 	if !g.started {
 		g.started = true
 		g.next, g.stop = iter.Pull(func(yield func(V) bool) {
+			returned := false
 			defer func() {
-				if r := recover(); r != nil {
-					if _, ok := r.(stopped); !ok {
-						panic(r)
-					}
+				if returned {
+					return
 				}
+				// the body panicked (detected by not returning: the value may be nil under
+				// GODEBUG=panicnil=1); carry the value over to the MoveNext that resumed the body
+				p := recover()
+				if _, ok := p.(stopped); ok {
+					return
+				}
+				g.panicked, g.panicVal = true, p
 			}()
 			g.body(&Y[V]{yield})
+			returned = true
 		})
 	}
-	ok := false
-	func() {
-		defer func() {
-			if !ok { // exhausted, or the body panicked (the panic propagates to our caller)
-				g.done = true
-				g.cur = zero
-			}
-		}()
-		g.cur, ok = g.next()
-	}()
-	return ok
+	v, ok := g.next()
+	if !ok {
+		g.done = true
+		g.cur = zero
+		if g.panicked {
+			g.panicked = false
+			panic(g.panicVal)
+		}
+		return false
+	}
+	g.cur = v
+	return true
 }
 
 func (g *gen[V]) Current() V { return g.cur }
